@@ -15,9 +15,10 @@ META = {
         "dictionary defining it; Content-Length / Content-Type of the stack are never emitted and the fixed ones come first "
         "from the body length and the configuration; User-Agent falls back to the configured one only when absent; the "
         "protected set is exactly {content-length, content-type}; C18.5 push_headers appends, pop_headers removes the last "
-        "element (`.pop()`), the constructor pushes its headers exactly once."),
+        "element (`.pop()`), the constructor pushes its headers exactly once. C18.6 (imported from C19.1) any failure while the request and its headers are emitted drops the transport's cached connection (self.close(), unconditionally, in the catch-all handler around send_request / send_content): the connection object buffers the headers already put, and reusing it would send them with the next request."),
     "does_not_decide": "what the peer receives (http.client behaviour).",
-    "rules": {"C18.1": "reachability avoiding the pop (exception edge at the yield included)", "C18.2-4": "shape interpreter (E7) over header stacks",
+    "rules": {"C18.6": "imported C19.1 (handler structure + dominance)",
+              "C18.1": "reachability avoiding the pop (exception edge at the yield included)", "C18.2-4": "shape interpreter (E7) over header stacks",
               "C18.5": "call scan of push/pop/__init__"},
     "assumptions": ["dict iteration is insertion-ordered; contextlib.contextmanager throws the block's exception at the yield"],
 }
@@ -308,6 +309,11 @@ def check(ck):
     ftm = prog.func("jsonrpc", "TransportMixIn.__init__")
     ok_init = any(isinstance(st_, ast.Assign) and dump(st_.targets[0]) == "self.additional_headers" and dump(st_.value) == "[]" for st_ in ast.walk(ftm.node))
     ck.require(ok_init, "C18.5", "%s: the stack starts empty" % q.fn(ftm), "self.additional_headers = []", "the header stack is not initialised empty per transport", q.loc(ftm, ftm.node))
+
+    # ---- C18.6 a failed emission does not leave its headers behind (shared with C19.1) -------------------------------------------
+    from rules import c19 as _c19h
+    _cm18.import_rules(ck, _c19h, {"C19.1": "C18.6"})
+    ck.floor("C18.6", 4)
 
 
 def _class_attr(prog, cls, name):
